@@ -9,6 +9,7 @@
 package main
 
 import (
+	"os"
 	"fmt"
 	"math/rand"
 	"runtime"
@@ -134,8 +135,13 @@ var scenarios = []scen{
 		x.gw.HeartbeatStatus = func(epoch, k int) (uint8, bool) { return 0, atomic.AddInt32(&n, 1)%3 == 0 }
 	}, func(x *exec) {}},
 	{"reconnect-in-progress", 40, func(x *exec) {
-		// heartbeats die, the reconnect is answered late or never
-		x.gw.HeartbeatStatus = func(epoch, k int) (uint8, bool) { return 0, false }
+		// heartbeats die (silence, or "unknown connection" at once so that most close
+		// indices fall inside the reconnect), the reconnect is answered late, busy or never
+		if x.rng.Intn(3) == 0 {
+			x.gw.HeartbeatStatus = func(epoch, k int) (uint8, bool) { return 0, false }
+		} else {
+			x.gw.HeartbeatStatus = func(epoch, k int) (uint8, bool) { return 0x21, true }
+		}
 		k := x.rng.Intn(4)
 		x.gw.ConnStatus = func(n int) uint8 {
 			if n == 1 {
@@ -157,9 +163,10 @@ var scenarios = []scen{
 		}
 	}, func(x *exec) {
 		x.wg.Add(1)
+		nSend := 1 + 3*x.rng.Intn(2)
 		go func() {
 			defer x.wg.Done()
-			for i := 0; i < 4; i++ {
+			for i := 0; i < nSend; i++ {
 				x.c.Send(0, uint32(i+1))
 			}
 		}()
@@ -563,6 +570,9 @@ func run(rr *mon.Run) {
 					v.kill = 2 + n%9
 				}
 				if r.Enough() {
+					continue
+				}
+				if only := os.Getenv("C10_ONLY"); only != "" && only != sc.name {
 					continue
 				}
 				one(v)
